@@ -199,6 +199,7 @@ extern "C" void c39_snmp_header(void)
         T("\x30\x29\x02\x02\x00\x04\x01pu\x01lic" PDU_HEAD VARS),              // community length, an octet in it (NUL!)
         T("\x30\x81\x01\x02\x02\x00\x04\x81\x01public" PDU_HEAD VARS),         // long-form lengths
         T("\x30\x81\xA6\x02\x02\x00\x04\x81\x01\x03\x82" "c" PDU_HEAD VARS),       // community of up to 130 octets (Squid's buffer: 128)
+        T("\x30\x2D\x02\x02\x00\x04\x84\x01\x01\x00\x06public" PDU_HEAD VARS),   // community with a 4-octet long-form length whose two high octets are symbolic (lengths >= 2^31 included)
 #ifdef VF_THOROUGH
         T("\x30\x01\x01\x02\x02\x00\x04\x06public" PDU_HEAD VARS),
         T("\x30\x29\x02\x01\x01\x01\x04\x06public" PDU_HEAD VARS),
@@ -237,6 +238,7 @@ extern "C" void c39_snmp_vars(void)
         T(MSG_HEAD PDU_HEAD "\x30\x11\x30\x0F\x06\x09\x2B\x06\x02\x04\x02\x9B\x27\x02\x02\x01\x01\x01\x01"),        // value type, length, 2 content octets
         T(MSG_HEAD PDU_HEAD "\x30\x11\x30\x06\x06\x02\x2B\x06\x01\x00" "\x30\x07\x06\x02\x2B\x06\x01\x01\x01"),     // two bindings
         T("\x30\x65\x02\x02\x00\x04\x06public" "\xA0\x58\x02\x02\x05\x02\x02\x00\x02\x02\x00" "\x30\x4D\x30\x4B\x06\x01\x2B\x03\x46\x05\x05\x00"),   // a name of up to 71 sub-identifiers (MAX_NAME_LEN is 64)
+        T("\x30\x2B\x02\x02\x00\x04\x06public" "\xA0\x1E\x02\x02\x05\x02\x02\x00\x02\x02\x00" "\x30\x13\x30\x11\x06\x09\x2B\x06\x02\x04\x02\x9B\x27\x02\x02\x04\x84\x01\x01\x00\x00"),   // OCTET STRING value with a 4-octet long-form length, two high octets symbolic
 #ifdef VF_THOROUGH
         T(MSG_HEAD PDU_HEAD "\x30\x11\x30\x0F\x06\x08\x2B\x06\x02\x04\x02\x9B\x27\x02\x01\x01\x01\x01\x01"),
         T(MSG_HEAD PDU_HEAD "\x30\x11\x30\x0F\x06\x01\x01\x01\x01\x04\x02\x9B\x27\x02\x02\x02\x00\x05\x00"),
